@@ -78,7 +78,11 @@ func checkC07(c *Check) {
 		return
 	}
 	optSets := []modelOpts{{Ast: true}, {Ast: false}, {Ast: true, Inline: true}, {Ast: false, Inline: true}}
-	rs, probs := runSuite(r, tokenSuite(), optSets)
+	specs := tokenSuite()
+	if c.Tier == "thorough" {
+		specs = append(specs, thoroughSpecs(c.Seed, 300)...)
+	}
+	rs, probs := runSuite(r, specs, optSets)
 	for _, p := range probs {
 		c.Und("R-anchor", "tree.(*Tree).Compile/emission region", "", p)
 	}
